@@ -46,3 +46,7 @@ claim("C08",
       "Decides the typed-store invariant inductively over all writers (so for every operation history): all functions writing ExecutionContext state fit a reviewed writer pattern; the two setters store only under a dominating full `Type == Type` test of the stored value against the field's type (after the scheme-identity test), return the replaced value and write nothing on failure; execute() runs the closure only under scheme identity (Arc::ptr_eq); every site where a value enters Array/Map storage is typed, guarded or an identity copy; the borrow guard restores exactly what it took; clear() empties all.",
       TB + " Field privacy is enforced by rustc (witnesses in the thorough tier).",
       "who-may-write census + guard-dominance rules over HIR")
+claim("C16",
+      "Decides for every operation history (inductive who-may-write + dominance): registry collections are mutated only by the three adders, each pushing exactly once in the Vacant arm of the complete-key entry and recording the pre-push length as index, Occupied mutates nothing and reports the kind found; a built Scheme (Arc<SchemeBuilder>) is never mutated; identifiers are resolved by one exact HashMap::get of the maximal dotted run and get_field/get_function accept only their kind; reference objects carry registry indexes; equality is pointer identity.",
+      TB + " HashMap/Fnv behaviour is trusted.",
+      "who-may-write census + entry-arm dominance rules over HIR")
